@@ -52,3 +52,90 @@ Print Assumptions C15_image_scaled.
 
 Example C15_examples : round8 255 = 1 /\ round8 (257 * 200) = 200 /\ scale_16_to_8 255 = 1 /\ scale_16_to_8 4660 = 18.
 Proof. exact round8_examples. Qed.
+
+(* ================================================================ picture level and the whole pipeline *)
+From OxiVerif Require Import Spec.Decode Spec.DecodeFile Model.Options Model.Headers Model.PngData Model.Evaluate Model.Reductions Model.Optimize
+  Proofs.LiftColor Proofs.PipelineLossless Proofs.InputParse Proofs.ScaledPicture Proofs.ScaledPipeline Proofs.ScaledFile Proofs.ScaleIrrelevant.
+
+(* the scaled meaning is a function of the input PICTURE and the colour key alone: every pixel is rounded by scaled_px (samples
+   to 257 * round(v / 257); under a key, alpha 0 exactly when all rounded samples equal the rounded key) *)
+Theorem C15_scaled_is_picture_map : forall img, key16_ok (ctype (hdr img)) -> depth (hdr img) = 16 ->
+  sem_scaled img = option_map (scaled_picture img) (sem img).
+Proof. exact sem_scaled_is_map. Qed.
+Print Assumptions C15_scaled_is_picture_map.
+
+(* dimensions unchanged *)
+Theorem C15_dimensions : forall img pic,
+  pic_w (scaled_picture img pic) = pic_w pic /\ pic_h (scaled_picture img pic) = pic_h pic.
+Proof. exact scaled_picture_dims. Qed.
+Print Assumptions C15_dimensions.
+
+(* the scaled image is well-formed and means the rounded picture *)
+Theorem C15_image_scaled_means : forall img img' pic, means pic img ->
+  scaled_bit_depth_16_to_8 img = Some img' -> means (scaled_picture img pic) img'.
+Proof. exact scaled_16_to_8_means. Qed.
+Print Assumptions C15_image_scaled_means.
+
+(* PIPELINE: scaling requested, bit-depth reductions enabled, the clock not expired at the 16->8 step: for every other option,
+   every clock answer elsewhere and every 16-bit image, the baseline and EVERY candidate handed to the evaluator are at most 8 bits
+   deep and mean the rounded picture *)
+Theorem C15_pipeline_scaled : forall e o, optimize_alpha o = false -> scale_16 o = true -> bit_depth_reduction o = true ->
+  dl e S16to8 = false ->
+  forall spic img pic baseline evs,
+  means pic img -> depth (hdr img) = 16 -> spic = scaled_picture img pic ->
+  perform_reductions e o img = Ok (baseline, evs) ->
+  (means spic baseline /\ depth (hdr baseline) <= 8) /\ Forall (cand_scaled spic) evs.
+Proof. exact perform_reductions_scaled. Qed.
+Print Assumptions C15_pipeline_scaled.
+
+(* whatever optimize_raw emits *)
+Theorem C15_emitted_scaled : forall e o img max_size c pic,
+  optimize_alpha o = false -> scale_16 o = true -> bit_depth_reduction o = true -> dl e S16to8 = false ->
+  means pic img -> depth (hdr img) = 16 ->
+  optimize_raw e o img max_size = Ok (Some c) -> means (scaled_picture img pic) (c_image c) /\ depth (hdr (c_image c)) <= 8.
+Proof. exact optimize_raw_scaled. Qed.
+Print Assumptions C15_emitted_scaled.
+
+(* FILE TO FILE: a valid 16-bit, non-animated input: the output decodes (specification's whole-file decoder) either to the input's
+   picture - only when nothing was emitted or the input is returned because the result is not smaller - or it is a file with an
+   at-most-8-bit header that decodes to the rounded picture *)
+Theorem C15_file_to_file : forall e o (inflate : list Z -> option (list Z)),
+  optimize_alpha o = false -> scale_16 o = true -> bit_depth_reduction o = true -> dl e S16to8 = false ->
+  (forall d s, inflate (z_deflate e d s) = Some s) ->
+  forall bytes out pic nm ih rest M,
+  bytes_ok bytes -> lenZ bytes + 5 <= M -> M + 4 < 2 ^ 31 -> (forall d s, lenZ (z_deflate e d s) <= M) ->
+  spec_parse_png bytes = Some ((nm, ih) :: rest) ->
+  spec_decode_chunks inflate ((nm, ih) :: rest) = Some pic ->
+  List.filter (named spec_IHDR) rest = [] ->
+  (length (List.filter (named spec_PLTE) rest) <= 1)%nat -> (length (List.filter (named spec_tRNS) rest) <= 1)%nat ->
+  (forall x n y, z_inflate e x n = Ok y -> inflate x = Some y /\ bytes_ok y) ->
+  (forall p, from_slice e bytes o = Ok p ->
+     spec_raw_size (width (hdr (raw p))) (height (hdr (raw p))) (bpp (hdr (raw p))) (interlaced (hdr (raw p))) true <= usize_max /\
+     wf_ctype (ctype (hdr (raw p))) (depth (hdr (raw p))) /\
+     depth (hdr (raw p)) = 16 /\ has_chunk name_acTL (aux_chunks p) = false) ->
+  optimize_from_memory e o bytes = Ok out ->
+  exists p, from_slice e bytes o = Ok p /\
+    (spec_decode_png inflate out = Some pic \/
+     (exists p', out = output p' /\ depth (hdr (raw p')) <= 8) /\ spec_decode_png inflate out = Some (scaled_picture (raw p) pic)).
+Proof. exact optimize_from_memory_scaled. Qed.
+Print Assumptions C15_file_to_file.
+
+(* "images that are not 16-bit are treated exactly as without the switch": the whole optimisation is the same function *)
+Theorem C15_not_16_bit_same : forall e o bytes b,
+  (forall p, from_slice e bytes o = Ok p -> depth (hdr (raw p)) <> 16) ->
+  optimize_from_memory e (set_scale_16 o b) bytes = optimize_from_memory e o bytes.
+Proof. exact optimize_from_memory_scale_irrelevant. Qed.
+Print Assumptions C15_not_16_bit_same.
+
+Theorem C15_not_16_bit_same_pipeline : forall e o img b, depth (hdr img) <> 16 ->
+  perform_reductions e (set_scale_16 o b) img = perform_reductions e o img.
+Proof. exact perform_reductions_scale_irrelevant. Qed.
+Print Assumptions C15_not_16_bit_same_pipeline.
+
+(* non-vacuity: a keyed 16-bit pixel that is opaque turns transparent exactly when it rounds to the rounded key *)
+Example C15_scaled_px_examples :
+  scaled_px (SGray (Some 0x1234)) (0x1234, 0x1234, 0x1234, 0) = (257 * 18, 257 * 18, 257 * 18, 0) /\
+  scaled_px (SGray (Some 0x1234)) (0x1250, 0x1250, 0x1250, 65535) = (257 * 18, 257 * 18, 257 * 18, 0) /\
+  scaled_px (SGray (Some 0x1234)) (0x1300, 0x1300, 0x1300, 65535) = (257 * 19, 257 * 19, 257 * 19, 65535) /\
+  scaled_px SRGBA (255, 0x8080, 65535, 0x00FF) = (257, 257 * 128, 65535, 257).
+Proof. vm_compute. repeat split; reflexivity. Qed.
